@@ -150,7 +150,7 @@ def alignParaCenter (width : Int) (lineSep para pre suf : List α) : R (List α)
           let rightSpace := countTrailingWs cx first
           let rr := ss - leftSpace
           let rr := if rr > rightSpace then rightSpace else rr
-          gSub cx first leftSpace (-rr)
+          gSub cx first leftSpace ((gLen cx first : Int) - rr)
       bl.set 0 first
     else pure bl
   let bl ← if se > 0 then do
@@ -163,7 +163,7 @@ def alignParaCenter (width : Int) (lineSep para pre suf : List α) : R (List α)
           let leftSpace := countLeadingWs cx last
           let lr := se - rightSpace
           let lr := if lr > leftSpace then leftSpace else lr
-          gSub cx last lr (-rightSpace)
+          gSub cx last lr ((gLen cx last : Int) - rightSpace)
       bl.set lastIdx last
     else pure bl
   pure bl.join
@@ -241,7 +241,10 @@ def Editor.wrapOpts (ed : Editor α) (width : Int) (o : Options α) : R (Editor 
       let sepStart := gRepeat [cx.phA] (gLen cx pre)
       let sepEnd := gRepeat [cx.phA] (gLen cx suf)
       let ls ← wrapLines cx (sepStart ++ para ++ sepEnd) width o.lineSep
-      pure [(Block.mk ls o.lineSep false).join]) o
+      let text := (Block.mk ls o.lineSep false).join
+      let ss : Int := gLen cx sepStart
+      let se : Int := gLen cx sepEnd
+      pure [if se > 0 then gSub cx text ss (-se) else gSub cx text ss (gLen cx text)]) o
   else
     let ls ← wrapLines cx ed.text width o.lineSep
     let t := (Block.mk ls o.lineSep false).join
